@@ -37,7 +37,8 @@ RULE = ('operation scripts over several var_opt_sketch<int64_t> registers and a 
         'more than all samples together) of sketches with different k and fill state (empty, under-full, exactly full, estimation '
         'mode, deserialized copies, the same sketch twice, equal taus) given by const reference or as an rvalue (update(std::move(copy))), union dumps, intermediate and final get_result, updates '
         'and a round trip of the result, serialize/deserialize of the union itself (bytes, stream, header) with both copies '
-        'continuing, union reset and reuse; non-trivial = some register leaves the warm-up phase (n > k) or a '
+        'continuing, copies of sketches and unions by copy construction, copy assignment onto an object in another state, move construction and '
+        'move assignment, feedback loops r := u.get_result(); u.update(r) that drive n beyond 2^32, union reset and reuse; non-trivial = some register leaves the warm-up phase (n > k) or a '
         'round trip / union happens')
 TRUSTED = ['Coq kernel; the hand-written model coq/VarOptDefs.v is validated only by the correspondence runs (bit-exact replay)',
            'random choices are taken from the hook log (E lines) instead of modelling mt19937_64/uniform distributions',
@@ -51,6 +52,8 @@ ASSUMPTIONS = ['lower/upper bounds of estimate_subset_sum go through libm (sqrt/
                'clause only for weights above tau*(1+1e-12); exact for dyadic inputs',
                'unbiasedness over the sampling randomness is statistical and not claimed',
                'resize factor and array capacities are not modelled (exercised under ASan only)',
+               'n is unbounded in the model and uint64 in the code; the feedback cases (r := u.get_result(); u.update(r), 34 rounds) exercise n up to '
+               '40 * 2^34 < 2^40, i.e. beyond 2^32 but far below 2^64',
                'serialization is modelled as the validity checks of serialize/deserialize plus the regions handed to the private '
                'constructor, not as bytes; the byte layout is exercised by the harness round trips only',
                '"at most the smallest effective k items" is read as: result k <= the union\'s max_k and at most k samples; the '
@@ -141,7 +144,7 @@ def gen(rng, tier):
             elif q < 0.16 and nreg > 1:
                 r2 = rng.randrange(nreg)
                 if r2 != r:
-                    ops.append([7, r, r2]); ks[r2] = ks[r]; cnt[r2] = cnt[r]; tags.add('copy')
+                    ops.append([7, r, r2, rng.randrange(4)]); ks[r2] = ks[r]; cnt[r2] = cnt[r]; tags.add('copy')
             elif q < 0.165:
                 ops.append([6, r]); cnt[r] = 0; tags.add('reset')
             else:
@@ -165,6 +168,73 @@ def gen(rng, tier):
         cases.append(dict(id='vo%d' % ci, ops=ops, tags=sorted(tags), exact=exact))
     for ci in range(ncases // 3):
         cases.append(union_case(rng, ci))
+    for ci in range(16 if tier == 'quick' else 60):
+        cases.append(copy_case(rng, ci))
+    cases += feedback_cases(rng, tier)
+    for ci in range(6 if tier == 'quick' else 30):
+        cases.append(marks_case(rng, ci))
+    return cases
+
+def marks_case(rng, ci):
+    """a gadget with more than 8 H items, marked ones (from a sampling-mode sketch) first and unmarked ones (exact-mode sketch) after them or
+       the other way round, serialized through each path: the packed mark bytes beyond the first must come back exactly"""
+    ops = [[99, rng.randrange(1, 2 ** 32)]]
+    ka = rng.choice([9, 10, 12]); nb = rng.choice([9, 12, 17])
+    ops.append([1, 0, ka, 3]); ops.append([1, 1, 32, 3])
+    for i in range(3 * ka):
+        ops.append([2, 0, i, d2b(1.0)])
+    for i in range(nb):
+        ops.append([2, 1, 1000 + i, d2b(float(100 * (i + 1)))])
+    ops.append([10, 0, 64])
+    order = [0, 1] if ci % 2 == 0 else [1, 0]
+    for r in order:
+        ops.append([rng.choice([11, 16]), 0, r])
+    ops.append([14, 0])
+    for mode in (0, 1, 2):
+        ops.append([15, 0, 10 + mode, mode]); ops.append([14, 10 + mode]); ops.append([12, 10 + mode, 203]); ops.append([3, 203]); ops.append([4, 203, 0, 0])
+    ops.append([12, 0, 200]); ops.append([3, 200])
+    return dict(id='vm%d' % ci, ops=ops, tags=['union', 'union-serde', 'marks>8'], exact=True)
+
+def copy_case(rng, ci):
+    """dst = src by copy ctor / copy-assign / move ctor / move-assign, the target being a sketch in another state (exact, estimation mode with
+       another tau, another k); the copy is dumped, queried, updated further and dumped again; the source must be unaffected"""
+    ops = [[99, rng.randrange(1, 2 ** 32)]]
+    ks = [rng.choice([2, 3, 4, 8]), rng.choice([2, 5, 8, 16])]
+    fills = [rng.choice(['exact', 'est', 'est']), rng.choice(['empty', 'exact', 'est', 'est'])]
+    pats = ['ones', 'smallint', 'pow2', 'dyadic']
+    st = dict(giant_at=0, c=4.0, base=1.0)
+    for r in (0, 1):
+        ops.append([1, r, ks[r], rng.randrange(4)])
+        n = dict(empty=0, exact=max(1, ks[r] - 1), est=3 * ks[r] + rng.randrange(4))[fills[r]]
+        pat = rng.choice(pats)
+        for i in range(n):
+            ops.append([2, r, 100 * r + i, d2b(weight(rng, pat, i, n, st) * (1 + 4 * r))])
+    mode = ci % 4
+    ops.append([7, 0, 1, mode]); ops.append([3, 1]); ops.append([3, 0])
+    for p in PREDS:
+        ops.append([4, 1, p[0], p[1]])
+    for i in range(rng.choice([1, 5, 20])):
+        ops.append([2, 1, 500 + i, d2b(float(rng.randint(1, 8)))])
+    ops.append([3, 1]); ops.append([4, 1, 0, 0]); ops.append([3, 0]); ops.append([5, 1, 2, rng.randrange(3)]); ops.append([3, 2])
+    return dict(id='vc%d' % ci, ops=ops, tags=['copy', 'copy-mode-%d' % mode, 'src-' + fills[0], 'dst-' + fills[1]], exact=True)
+
+def feedback_cases(rng, tier):
+    """r := u.get_result(); u.update(r), 34 rounds: n doubles every round and passes 2^32 after round 27 (n up to 40 * 2^34 < 2^40),
+       the samples stay <= max_k; the three configurations end in the simple-copy, the migrate and the pseudo-exact coercer"""
+    cases = []
+    for ci, (maxk, sk) in enumerate([(4, [(4, 40, 1.0)]), (8, [(4, 40, 1.0), (4, 8, 100.0)]), (16, [(4, 40, 1.0)]), (3, [(5, 9, 2.0), (2, 7, 1.0)])]):
+        ops = [[99, 1234 + ci]]
+        for r, (k, n, w) in enumerate(sk):
+            ops.append([1, r, k, 3])
+            for i in range(n):
+                ops.append([2, r, 1000 * r + i, d2b(w)])
+        ops.append([10, 0, maxk])
+        for r in range(len(sk)):
+            ops.append([20, 0, r])
+        for rnd in range(34):
+            ops.append([21, 0, 200]); ops.append([3, 200]); ops.append([20, 0, 200]); ops.append([14, 0])
+        ops.append([21, 0, 200]); ops.append([3, 200]); ops.append([4, 200, 0, 0])
+        cases.append(dict(id='vf%d' % ci, ops=ops, tags=['feedback', 'n>=2^32'], exact=True, kind='feedback', n0=[n for (_, n, _) in sk]))
     return cases
 
 def union_phase(rng, ops, tags, srcs, klist, pat, st, universe, u):
@@ -193,6 +263,12 @@ def union_phase(rng, ops, tags, srcs, klist, pat, st, universe, u):
         if rng.random() < 0.5:
             ops.append([rng.choice([11, 16]), u + 10, rng.choice(srcs)]); ops.append([14, u + 10])
             ops.append([12, u + 10, 203]); ops.append([3, 203]); ops.append([4, 203, 0, 0])
+    if rng.random() < 0.3:
+        # copy of the union by copy ctor / copy-assign / move ctor / move-assign; the copy must behave like the original
+        tags.add('union-copy')
+        ops.append([17, u, u + 20, rng.randrange(4)]); ops.append([14, u + 20]); ops.append([12, u + 20, 204]); ops.append([3, 204])
+        ops.append([rng.choice([11, 16]), u, rng.choice(srcs)])
+        ops.append([17, u, u + 20, rng.choice([1, 3])]); ops.append([14, u + 20]); ops.append([12, u + 20, 204]); ops.append([3, 204]); ops.append([4, 204, 0, 0])
     ops.append([14, u]); ops.append([12, u, 200]); ops.append([3, 200])
     for p in PREDS:
         ops.append([4, 200, p[0], p[1]])
@@ -282,6 +358,24 @@ def oracle(case, irecs, mrecs):
     ureg = {}
     def bad(sig, what, i):
         fails.append(dict(sig=sig, what=what, op_index=i))
+    if case.get('kind') == 'feedback':
+        # no ghost log here (it would double every round): n is checked against the doubling itself
+        regn = dict(enumerate(case['n0'])); un = 0
+        for i, op in enumerate(case['ops']):
+            if i >= len(irecs):
+                break
+            R = irecs[i]['R']
+            if op[0] in (20, 21) and R != [1]:
+                bad('union_feedback_threw', 'union update / get_result threw in the feedback loop (union n = %d)' % un, i); break
+            if op[0] == 20:
+                un += regn[op[2]]
+            elif op[0] == 21:
+                regn[op[2]] = un
+            elif op[0] == 3 and op[1] == 200 and R[0] != regn[200]:
+                bad('union_feedback_n', 'get_n of the union result is %d, the union has seen %d items' % (R[0], regn[200]), i)
+            elif op[0] == 14 and R[0] != un:
+                bad('union_feedback_n', 'union n is %d after sketches with %d items in total' % (R[0], un), i)
+        return fails
     for i, op in enumerate(case['ops']):
         if i >= len(irecs) or i >= len(mrecs):
             break
@@ -433,6 +527,8 @@ def oracle(case, irecs, mrecs):
                 ureg[op[2]] = dict(ureg[op[1]])
             elif not ureg[op[1]]['taint']:
                 bad('union_roundtrip_refused', 'var_opt_union serialize/deserialize round trip threw (union n=%d)' % ureg[op[1]]['cnt'], i)
+        elif c == 17 and len(op) >= 3 and op[1] in ureg and R == [1]:
+            ureg[op[2]] = dict(ureg[op[1]])
         elif c == 13 and op[1] in ureg and R == [1]:
             ureg[op[1]] = dict(maxk=ureg[op[1]]['maxk'], cnt=0, taint=False, est=False)
         elif c == 14 and op[1] in ureg and S and R != [-1] and not ureg[op[1]]['taint']:
